@@ -287,11 +287,15 @@ func (c *RemoteClient) Ready(ctx context.Context, nextMessageID uint64) error {
 	logger.InfoWithFields(ctx, []logger.Field{
 		logger.Uint64("next_message_id", nextMessageID),
 	}, "Sending ready message")
+	// Set the next message id before sending. The server can send messages as soon as it has the
+	// ready message, and when they are handled before the id is set the first one is dropped as
+	// not the expected id or the id is set back to an id that was already handled.
+	c.nextMessageID.Store(nextMessageID)
+
 	if err := c.sendDirect(ctx, &Message{Payload: m}); err != nil {
 		return err
 	}
 
-	c.nextMessageID.Store(nextMessageID)
 	c.handshakeComplete.Store(true)
 	logger.Info(ctx, "Marked handshake complete")
 	handshakeCompleteChannel := c.handshakeCompleteChannel.Load()
